@@ -28,6 +28,27 @@ type Term struct {
 	c     uint64 // constant value (masked), bool: 0/1
 	sym   bool   // a free symbol (declared to the solver on first use)
 	inner *Term  // operand of a "(not x)" term
+	op    string // operator (for the evaluator); "" for constants and symbols
+	param int
+	args  []*Term
+}
+
+// mkOp builds "(head a1 a2 ...)" and remembers the operator and operands for the evaluator
+func mkOp(head string, sort Sort, op string, param int, args ...*Term) *Term {
+	n := len(head) + 2
+	for _, a := range args {
+		n += len(a.s) + 1
+	}
+	var sb strings.Builder
+	sb.Grow(n)
+	sb.WriteByte('(')
+	sb.WriteString(head)
+	for _, a := range args {
+		sb.WriteByte(' ')
+		sb.WriteString(a.s)
+	}
+	sb.WriteByte(')')
+	return intern(&Term{s: sb.String(), sort: sort, op: op, param: param, args: args})
 }
 
 // The term table is shared by all worker goroutines (terms are immutable once published).
@@ -144,7 +165,7 @@ func fpbin(op string, a, b *Term) *Term {
 			return FP(x / y)
 		}
 	}
-	return mk("("+op+" RNE "+a.s+" "+b.s+")", Sort{FP: true})
+	return mkOp(op+" RNE", Sort{FP: true}, op, 0, a, b)
 }
 
 func fpcmp(op string, a, b *Term) *Term {
@@ -163,21 +184,21 @@ func fpcmp(op string, a, b *Term) *Term {
 			return Bool(x >= y)
 		}
 	}
-	return mk("("+op+" "+a.s+" "+b.s+")", Sort{Bool: true})
+	return mkOp(op, Sort{Bool: true}, op, 0, a, b)
 }
 
 func fpneg(a *Term) *Term {
 	if a.isC {
 		return FP(-a.f())
 	}
-	return mk("(fp.neg "+a.s+")", Sort{FP: true})
+	return mkOp("fp.neg", Sort{FP: true}, "fp.neg", 0, a)
 }
 
 func fpIsNaN(a *Term) *Term {
 	if a.isC {
 		return Bool(a.f() != a.f())
 	}
-	return mk("(fp.isNaN "+a.s+")", Sort{Bool: true})
+	return mkOp("fp.isNaN", Sort{Bool: true}, "fp.isNaN", 0, a)
 }
 
 // amd64 CVTTSD2SQ model
@@ -191,7 +212,7 @@ func fpToInt64(a *Term) *Term {
 	}
 	two63 := FP(9223372036854775808.0)
 	bad := Or(fpIsNaN(a), Or(fpcmp("fp.geq", a, two63), fpcmp("fp.lt", a, fpneg(two63))))
-	return Ite(bad, BV(0x8000000000000000, 64), mk("((_ fp.to_sbv 64) RTZ "+a.s+")", Sort{Width: 64}))
+	return Ite(bad, BV(0x8000000000000000, 64), mkOp("(_ fp.to_sbv 64) RTZ", Sort{Width: 64}, "fp.to_sbv", 64, a))
 }
 
 func int64ToFP(a *Term, signed bool) *Term {
@@ -202,9 +223,9 @@ func int64ToFP(a *Term, signed bool) *Term {
 		return FP(float64(a.c))
 	}
 	if signed {
-		return mk("((_ to_fp 11 53) RNE "+a.s+")", Sort{FP: true})
+		return mkOp("(_ to_fp 11 53) RNE", Sort{FP: true}, "to_fp", 0, a)
 	}
-	return mk("((_ to_fp_unsigned 11 53) RNE "+a.s+")", Sort{FP: true})
+	return mkOp("(_ to_fp_unsigned 11 53) RNE", Sort{FP: true}, "to_fp_unsigned", 0, a)
 }
 
 func (x *Exec) FreshBV(name string, w int) *Term {
@@ -274,7 +295,7 @@ func bvbin(op string, a, b *Term) *Term {
 			return BV(uint64(sext(x, w)>>sh), w)
 		}
 	}
-	return mk("("+op+" "+a.s+" "+b.s+")", Sort{Width: w})
+	return mkOp(op, Sort{Width: w}, op, 0, a, b)
 }
 
 func bvcmp(op string, a, b *Term) *Term {
@@ -297,7 +318,7 @@ func bvcmp(op string, a, b *Term) *Term {
 	if op == "=" && a == b {
 		return Bool(true)
 	}
-	return mk("("+op+" "+a.s+" "+b.s+")", Sort{Bool: true})
+	return mkOp(op, Sort{Bool: true}, op, 0, a, b)
 }
 
 func Not(a *Term) *Term {
@@ -307,7 +328,7 @@ func Not(a *Term) *Term {
 	if a.inner != nil {
 		return a.inner
 	}
-	return intern(&Term{s: "(not " + a.s + ")", sort: Sort{Bool: true}, inner: a})
+	return intern(&Term{s: "(not " + a.s + ")", sort: Sort{Bool: true}, inner: a, op: "not", args: []*Term{a}})
 }
 
 func And(a, b *Term) *Term {
@@ -323,7 +344,7 @@ func And(a, b *Term) *Term {
 		}
 		return a
 	}
-	return mk("(and "+a.s+" "+b.s+")", Sort{Bool: true})
+	return mkOp("and", Sort{Bool: true}, "and", 0, a, b)
 }
 
 func Or(a, b *Term) *Term { return Not(And(Not(a), Not(b))) }
@@ -338,7 +359,7 @@ func Ite(c, a, b *Term) *Term {
 	if a == b {
 		return a
 	}
-	return mk("(ite "+c.s+" "+a.s+" "+b.s+")", a.sort)
+	return mkOp("ite", a.sort, "ite", 0, c, a, b)
 }
 
 func Extend(a *Term, to int, signed bool) *Term {
@@ -350,7 +371,7 @@ func Extend(a *Term, to int, signed bool) *Term {
 		if a.isC {
 			return BV(a.c, to)
 		}
-		return mk(fmt.Sprintf("((_ extract %d 0) %s)", to-1, a.s), Sort{Width: to})
+		return mkOp(fmt.Sprintf("(_ extract %d 0)", to-1), Sort{Width: to}, "extract", to, a)
 	}
 	if a.isC {
 		if signed {
@@ -362,7 +383,7 @@ func Extend(a *Term, to int, signed bool) *Term {
 	if signed {
 		op = "sign_extend"
 	}
-	return mk(fmt.Sprintf("((_ %s %d) %s)", op, to-w, a.s), Sort{Width: to})
+	return mkOp(fmt.Sprintf("(_ %s %d)", op, to-w), Sort{Width: to}, op, to, a)
 }
 
 // ---- solver process ----
@@ -400,7 +421,7 @@ func NewSolver(kind string) *Solver {
 		panic(err)
 	}
 	s := &Solver{kind: kind, cmd: cmd, in: in, out: bufio.NewReader(outp), decl: map[string]bool{}}
-	fmt.Fprintln(in, "(set-option :produce-models true)\n(set-option :global-declarations true)\n(set-logic ALL)\n(declare-fun pf_val ((_ BitVec 64) (_ BitVec 64) Bool Bool Bool) (_ FloatingPoint 11 53))")
+	fmt.Fprintln(in, "(set-option :produce-models true)\n(set-option :global-declarations true)\n(set-logic ALL)\n(declare-fun pf_val ((_ BitVec 64) (_ BitVec 64) Bool Bool Bool) (_ FloatingPoint 11 53))\n(declare-fun pf_range ((_ BitVec 64) (_ BitVec 64) Bool Bool Bool) Bool)")
 	return s
 }
 
@@ -500,34 +521,7 @@ func (s *Solver) ask(pc []*Term, extra *Term, vars []*Term) (bool, map[string]ui
 	case "sat":
 		res = true
 		if vars != nil {
-			m = map[string]uint64{}
-			for _, v := range vars {
-				if !s.decl[v.s] {
-					m[v.s] = 0
-					continue
-				}
-				fmt.Fprintf(s.in, "(get-value (%s))\n", v.s)
-				l := s.readLine()
-				// multi-line values: read until parentheses balance
-				for strings.Count(l, "(") > strings.Count(l, ")") {
-					l += " " + s.readLine()
-				}
-				if v.sort.FP {
-					m[v.s] = parseFPModel(l)
-					continue
-				}
-				k := strings.LastIndex(l, "#")
-				if k >= 0 {
-					val := strings.TrimRight(l[k:], ")\n ")
-					if strings.HasPrefix(val, "#x") {
-						u, _ := strconv.ParseUint(val[2:], 16, 64)
-						m[v.s] = u
-					} else if strings.HasPrefix(val, "#b") {
-						u, _ := strconv.ParseUint(val[2:], 2, 64)
-						m[v.s] = u
-					}
-				}
-			}
+			m = s.getModel(vars)
 		}
 	case "unsat":
 	default:
@@ -537,6 +531,79 @@ func (s *Solver) ask(pc []*Term, extra *Term, vars []*Term) (bool, map[string]ui
 	}
 	fmt.Fprintln(s.in, "(pop 1)")
 	return res, m, unk
+}
+
+// getModel fetches the values of all declared vars with a single get-value
+func (s *Solver) getModel(vars []*Term) map[string]uint64 {
+	m := map[string]uint64{}
+	var names []string
+	sorts := map[string]Sort{}
+	for _, v := range vars {
+		if !s.decl[v.s] {
+			m[v.s] = 0
+			continue
+		}
+		if _, dup := sorts[v.s]; dup {
+			continue
+		}
+		names = append(names, v.s)
+		sorts[v.s] = v.sort
+	}
+	if len(names) == 0 {
+		return m
+	}
+	fmt.Fprintf(s.in, "(get-value (%s))\n", strings.Join(names, " "))
+	l := s.readLine()
+	for strings.Count(l, "(") > strings.Count(l, ")") {
+		l += " " + s.readLine()
+	}
+	// l = ((n1 v1) (n2 v2) ...): split into top-level pairs
+	depth := 0
+	start := -1
+	for i := 0; i < len(l); i++ {
+		switch l[i] {
+		case '(':
+			depth++
+			if depth == 2 {
+				start = i
+			}
+		case ')':
+			if depth == 2 && start >= 0 {
+				pair := l[start+1 : i]
+				sp := strings.IndexByte(pair, ' ')
+				if sp > 0 {
+					name, val := pair[:sp], strings.TrimSpace(pair[sp+1:])
+					if so, ok := sorts[name]; ok {
+						if so.FP {
+							m[name] = parseFPModel("(" + val + ")")
+						} else {
+							m[name] = parseBVModel(val)
+						}
+					}
+				}
+				start = -1
+			}
+			depth--
+		}
+	}
+	return m
+}
+
+func parseBVModel(val string) uint64 {
+	val = strings.TrimSpace(val)
+	switch {
+	case strings.HasPrefix(val, "#x"):
+		u, _ := strconv.ParseUint(val[2:], 16, 64)
+		return u
+	case strings.HasPrefix(val, "#b"):
+		u, _ := strconv.ParseUint(val[2:], 2, 64)
+		return u
+	case strings.HasPrefix(val, "(_ bv"):
+		f := strings.Fields(val[5:])
+		u, _ := strconv.ParseUint(f[0], 10, 64)
+		return u
+	}
+	return 0
 }
 
 func (s *Solver) Close() { s.in.Close(); s.cmd.Wait() }
